@@ -1,4 +1,6 @@
 import IceModel.Driver.Parse
+import IceModel.Driver.Layout
+import IceModel.Driver.ModelAns
 import IceModel.Model.Iter1Hit
 import IceModel.Model.Bits
 /-
@@ -30,11 +32,20 @@ structure St where
   segs : Array AbsSeg := #[]
   docnums : Array (Option (List (List (Option Nat)))) := #[]
   merged : Array Bool := #[]
+  /-- for a merged segment: its inputs (segment, deletions), to predict encoding decisions -/
+  src : Array (List (AbsSeg × List Nat)) := #[]
+  /-- model run: the pooled visit context's buffer, threaded through the stored-field queries -/
+  sbuf : Model.Stored.Buf := Model.Stored.Buf.empty
+  /-- model run: the stored section of a segment as the model writes it (computed once) -/
+  sseg : List (Nat × Model.Stored.Seg) := []
   mode : Nat := 1025
   docs : Array Doc := #[]
   mergeIns : Array (Nat × List Nat) := #[]
   qidx : Nat := 0
 deriving Inhabited
+
+def St.srcOf (st : St) (i : Nat) : Option (List (AbsSeg × List Nat)) :=
+  if st.merged.getD i false then some (st.src.getD i []) else none
 
 def modifyLast {α} (a : Array α) (f : α → α) : Array α :=
   if 0 < a.size then a.modify (a.size - 1) f else a
@@ -50,7 +61,7 @@ structure Answerer where
   count : AbsSeg → Nat
   dict : AbsSeg → Bytes → Option Bytes → Option Bytes → (Bytes → Bool) → List (Bytes × Nat)
   contains : AbsSeg → Bytes → Bytes → Bool
-  iter : Bool → AbsSeg → Bytes → Bytes → Option (List Nat) → Option (List Nat) → Flags → List XOp →
+  iter : Option (List (AbsSeg × List Nat)) → AbsSeg → Bytes → Bytes → Option (List Nat) → Option (List Nat) → Flags → List XOp →
     List (Option Posting) × Nat
   stored : AbsSeg → Nat → List (Bytes × Bytes)
   dv : AbsSeg → List Bytes → List Nat → List (List (Bytes × Bytes))
@@ -81,6 +92,14 @@ def specAnswerer : Answerer where
   dv s fs ds := ds.map (fun d => fs.flatMap (fun f => (dvOf s d f).map (fun t => (f, t))))
   stats := Spec.stats
   docsMatching := Spec.docsMatching
+
+/-- `finishTerm` encodes a merged term as a 1-hit value only if the LAST input segment whose
+    dictionary holds the term contributed a surviving posting (`lastDocNum`/`lastFreq` are those
+    of the last `mergeTermFreqNormLocs` call) - besides cardinality 1, frequency 1, no locations -/
+def lastSegSurvives (src : List (AbsSeg × List Nat)) (f t : Bytes) : Bool :=
+  match (src.filter (fun p => !(postings p.1 f t).isEmpty)).getLast? with
+  | none => true
+  | some p => (postings p.1 f t).any (fun q => !p.2.contains q.doc)
 
 /-! ### answering through the executable MODEL of the code (correspondence model ↔ implementation) -/
 
@@ -118,7 +137,8 @@ def modelIter1X (fl : Flags) : Model.Iter1Hit.It → List XOp → List (Option P
     encodes a term with one posting of frequency 1 without locations as a 1-hit value -/
 def modelAnswerer : Answerer :=
   { specAnswerer with
-    iter := fun merged s f t e r fl ops =>
+    iter := fun msrc s f t e r fl ops =>
+      let merged := msrc.isSome && lastSegSurvives (msrc.getD []) f t
       let P := postings s f t
       let L := live (match r with
                      | none => P
@@ -185,13 +205,13 @@ def answer (A : Answerer) (st : St) (toks : List String) : Option String := do
   | "iter" :: s :: f :: t :: e :: fl :: ops =>
     let sg ← st.segs[(← s.toNat?)]?
     let fl ← parseFlags fl
-    let (rs, cnt) := A.iter (st.merged.getD (← s.toNat?) false) sg (← parseBytes f) (← parseBytes t) (← parseOptNatList e) none fl
+    let (rs, cnt) := A.iter (st.srcOf (← s.toNat?)) sg (← parseBytes f) (← parseBytes t) (← parseOptNatList e) none fl
       (← ops.mapM parseXOp)
     pure (" ".intercalate (rs.map (showPosting fl) ++ [s!"cnt={cnt}", s!"icnt={cnt}"]))
   | "iterR" :: s :: f :: t :: e :: r :: fl :: ops =>
     let sg ← st.segs[(← s.toNat?)]?
     let fl ← parseFlags fl
-    let (rs, _) := A.iter (st.merged.getD (← s.toNat?) false) sg (← parseBytes f) (← parseBytes t) (← parseOptNatList e)
+    let (rs, _) := A.iter (st.srcOf (← s.toNat?)) sg (← parseBytes f) (← parseBytes t) (← parseOptNatList e)
       (some (← parseNatList r)) fl (← ops.mapM parseXOp)
     pure (" ".intercalate (rs.map (showPosting fl)))
   | ["stored", s, n, stop] =>
@@ -214,6 +234,22 @@ def answer (A : Answerer) (st : St) (toks : List String) : Option String := do
     let i ← s.toNat?
     let dn ← (← st.docnums[i]?)
     pure (" | ".intercalate (dn.map (fun l => ",".intercalate (l.map showDocnum))))
+  | ["lfields", s] =>
+    let sg ← st.segs[(← s.toNat?)]?
+    pure (layoutFields sg)
+  | ["lstored", s] =>
+    let sg ← st.segs[(← s.toNat?)]?
+    pure (layoutStored sg)
+  | ["lterm", s, f, t] =>
+    let i ← s.toNat?
+    let sg ← st.segs[i]?
+    let f ← parseBytes f
+    let t ← parseBytes t
+    pure (layoutTerm ((st.merged.getD i false) && lastSegSurvives (st.src.getD i []) f t) sg f t)
+  | ["ldv", s, f] =>
+    let i ← s.toNat?
+    let sg ← st.segs[i]?
+    pure (layoutDV (st.merged.getD i false) sg (← parseBytes f))
   | ["mergen", s] =>
     let _ ← st.segs[(← s.toNat?)]?
     pure "ok"
@@ -223,6 +259,62 @@ def answer (A : Answerer) (st : St) (toks : List String) : Option String := do
   | ["repersist", s] =>
     let _ ← st.segs[(← s.toNat?)]?
     pure "same"
+  | _ => none
+
+/-- queries the model answers with state (and with the object-level models) -/
+def answerModel (st : St) (toks : List String) : Option (String × St) := do
+  match toks with
+  | ["stored", s, n, stop] =>
+    let i ← s.toNat?
+    let sg ← st.segs[i]?
+    let stopI ← stop.toInt?
+    let (mseg, st) := match st.sseg.find? (fun p => p.1 == i) with
+      | some p => (p.2, st)
+      | none => let m := modelStoredSeg sg; (m, { st with sseg := (i, m) :: st.sseg })
+    let (r, buf') := modelStored sg mseg st.sbuf (← n.toNat?) (if stopI < 1 then none else some (stopI.toNat - 1))
+    match r with
+    | some vs => pure (" ".intercalate (vs.map showPair), { st with sbuf := buf' })
+    | none => pure ("model-fault", st)
+  | ["dv", s, fs, ds] =>
+    let i ← s.toNat?
+    let sg ← st.segs[i]?
+    match modelDv (st.merged.getD i false) sg (← parseBytesList fs) (← parseNatList ds) with
+    | some rs => pure (" | ".intercalate (rs.map (fun r => " ".intercalate (r.map showPair))), st)
+    | none => pure ("model-fault", st)
+  | ["dict", s, f, lo, hi, aut] =>
+    let i ← s.toNat?
+    let sg ← st.segs[i]?
+    let f ← parseBytes f
+    let lo ← parseOptBytes lo
+    let hi ← parseOptBytes hi
+    let aut ← parseAut aut
+    let oneHit := fun f t => (st.merged.getD i false) && lastSegSurvives (st.src.getD i []) f t &&
+      (match postings sg f t with
+       | [p] => p.freq == 1 && p.locs.isEmpty && p.doc < 2 ^ 31
+       | _ => false)
+    let ms := dictSeg oneHit sg
+    let d := Model.Dict.dictionary ms f
+    -- range and automaton are vellum's; an empty range enumerates nothing (dict.go)
+    let emptyRange : Bool := match lo, hi with
+      | some l, some h => Bytes.cmp l h != .lt
+      | _, _ => false
+    let es := if emptyRange then [] else (d.fst.getD []).filter (fun e =>
+      (match lo with | none => true | some l => Bytes.le l e.1) &&
+      (match hi with | none => true | some h => Bytes.lt e.1 h) && aut e.1)
+    match Model.Dict.dictIter Model.Dict.fixed ms es {} with
+    | .ok r => pure (" ".intercalate (r.map (fun e => s!"{showBytes e.1}={e.2}")), st)
+    | _ => pure ("model-fault", st)
+  | "match" :: s :: pairs =>
+    let i ← s.toNat?
+    let sg ← st.segs[i]?
+    let oneHit := fun f t => (st.merged.getD i false) && lastSegSurvives (st.src.getD i []) f t &&
+      (match postings sg f t with
+       | [p] => p.freq == 1 && p.locs.isEmpty && p.doc < 2 ^ 31
+       | _ => false)
+    let ms := dictSeg oneHit sg
+    match Model.Dict.docsMatchingFixed ms (← pairs.mapM parsePair) none [] with
+    | .ok ds => pure (",".intercalate ((sortNats ds).map toString), st)
+    | _ => pure ("model-fault", st)
   | _ => none
 
 def parseDrops (s : String) : Option (List Nat) :=
@@ -269,7 +361,7 @@ def step (A : Answerer) (st : St) (line : String) : St × Option String :=
   | ["endbuild"] =>
     let sg := build st.norm.calc st.mode st.docs.toList
     ({ st with segs := st.segs.push sg, docnums := st.docnums.push none, merged := st.merged.push false,
-               docs := #[] }, none)
+               src := st.src.push [], docs := #[] }, none)
   | "merge" :: m :: _ =>
     match m.toNat? with
     | some m => ({ st with mode := m, mergeIns := #[] }, none)
@@ -282,18 +374,21 @@ def step (A : Answerer) (st : St) (line : String) : St × Option String :=
     let ins := st.mergeIns.toList.map (fun p => (st.segs.getD p.1 default, p.2))
     let (sg, dn) := merge st.mode ins
     ({ st with segs := st.segs.push sg, docnums := st.docnums.push (some dn), merged := st.merged.push true,
-               mergeIns := #[] }, none)
+               src := st.src.push ins, mergeIns := #[] }, none)
   | "load" :: s :: _ =>
     match s.toNat? with
     | some s =>
       ({ st with segs := st.segs.push (st.segs.getD s default), docnums := st.docnums.push none,
-                 merged := st.merged.push (st.merged.getD s false) }, none)
+                 merged := st.merged.push (st.merged.getD s false), src := st.src.push (st.src.getD s []) }, none)
     | none => (st, some s!"bad-line {line}")
   | "q" :: q =>
-    let out := match answer A st q with
-      | some a => s!"r {st.caseId} {st.qidx} {a}"
-      | none => s!"r {st.caseId} {st.qidx} bad-query"
-    ({ st with qidx := st.qidx + 1 }, some out)
+    match (if st.via == Via.model then answerModel st q else none) with
+    | some (a, st') => ({ st' with qidx := st.qidx + 1 }, some s!"r {st.caseId} {st.qidx} {a}")
+    | none =>
+      let out := match answer A st q with
+        | some a => s!"r {st.caseId} {st.qidx} {a}"
+        | none => s!"r {st.caseId} {st.qidx} bad-query"
+      ({ st with qidx := st.qidx + 1 }, some out)
   | _ => (st, some s!"bad-line {line}")
 
 end Ice.Driver
